@@ -12,6 +12,7 @@ CONSTANTS
   AllowStop = TRUE
   AllowCtrlC = TRUE
   AllowError = FALSE
+  AliveCheck = TRUE
 INVARIANT ProtocolOK
 INVARIANT ClosedAtEnd
 INVARIANT NoProblemLost
